@@ -62,16 +62,18 @@ mod neg_basic__exppar;
 mod agg_depth__topar;
 mod agg_user__pari;
 mod agg_bound_mix__pari;
-mod disj__pari;
-mod disj__src2;
-mod disj__permpar;
-mod pat_args__ser;
-mod rep_expr__exp;
-mod neg_in_disj__par;
-mod mac_basic__topar;
-mod mac_basic__init;
-mod mac_capture__exp;
-mod mac_disj__par;
+mod agg_empty_rel__pari;
+mod disj__ser;
+mod disj__src0;
+mod disj__perm2;
+mod disj_nested__exp;
+mod rep_expr__par;
+mod multi_head_disj__exppar;
+mod mac_basic__pari;
+mod mac_basic__src2;
+mod mac_capture__par;
+mod mac_nested__exppar;
+mod mac_disj__pari;
 
 fn lookup(name: &str) -> fn() -> Box<dyn Driven> {
    match name {
@@ -129,16 +131,18 @@ fn lookup(name: &str) -> fn() -> Box<dyn Driven> {
       "agg_depth__topar" => agg_depth__topar::make,
       "agg_user__pari" => agg_user__pari::make,
       "agg_bound_mix__pari" => agg_bound_mix__pari::make,
-      "disj__pari" => disj__pari::make,
-      "disj__src2" => disj__src2::make,
-      "disj__permpar" => disj__permpar::make,
-      "pat_args__ser" => pat_args__ser::make,
-      "rep_expr__exp" => rep_expr__exp::make,
-      "neg_in_disj__par" => neg_in_disj__par::make,
-      "mac_basic__topar" => mac_basic__topar::make,
-      "mac_basic__init" => mac_basic__init::make,
-      "mac_capture__exp" => mac_capture__exp::make,
-      "mac_disj__par" => mac_disj__par::make,
+      "agg_empty_rel__pari" => agg_empty_rel__pari::make,
+      "disj__ser" => disj__ser::make,
+      "disj__src0" => disj__src0::make,
+      "disj__perm2" => disj__perm2::make,
+      "disj_nested__exp" => disj_nested__exp::make,
+      "rep_expr__par" => rep_expr__par::make,
+      "multi_head_disj__exppar" => multi_head_disj__exppar::make,
+      "mac_basic__pari" => mac_basic__pari::make,
+      "mac_basic__src2" => mac_basic__src2::make,
+      "mac_capture__par" => mac_capture__par::make,
+      "mac_nested__exppar" => mac_nested__exppar::make,
+      "mac_disj__pari" => mac_disj__pari::make,
       _ => panic!("no such program variant in this shard: {}", name),
    }
 }
